@@ -23,8 +23,8 @@ void _ZN28MemoryLeakOutputStringBuffer29reportMemoryCorruptionFailureEP22MemoryL
  * this test; bit2 (second test only) = release the block the FIRST test leaked */
 static void body(const uint32_t s1, const uint32_t s2) {
   h_init();
-  IN_U64(e1); IN_U64(e2); IN_BOOL(ig1); IN_BOOL(ig2); IN_BOOL(own1); IN_BOOL(own2);
-  ASSUME(e1 <= 3 && e2 <= 3);
+  IN_U64(e1x); IN_U64(e2x); IN_BOOL(ig1); IN_BOOL(ig2); IN_BOOL(own1); IN_BOOL(own2);
+  uint64_t e1 = e1x & 3, e2 = e2x & 3;
   CHECK(h_overloaded(), "leak detection overloads are on");
   uint8_t* a = 0; uint8_t* b = 0;
   /* ---- test 1 */
